@@ -246,6 +246,75 @@ func readPhase(run *evid.Run, idx int) {
 	}
 }
 
+// faultyMemberReads: one member answers every digest-addressed read with an error that is not a
+// "not found" (denied, unauthorized, rate limited, a transport error); the other member is healthy.
+// Content the healthy member has stays readable under both policies, and content it does not have
+// stays unreadable; the two policies agree.
+func faultyMemberReads(run *evid.Run, idx int) {
+	rng := run.Rand(153, uint64(idx))
+	u := model.SmallUniverse()
+	m0, m1 := ocimem.New(), ocimem.New()
+	seed := rng.Uint64()
+	populate(rand.New(rand.NewPCG(seed, 1)), u, m0, 30, u.Repos)
+	u2 := model.SmallUniverse()
+	if idx%2 == 0 {
+		populate(rand.New(rand.NewPCG(seed, 1)), u2, m1, 30, u2.Repos) // equal members
+	} else {
+		populate(rng, u2, m1, 30, u2.Repos) // different members
+	}
+	faulty := (idx / 2) % 2
+	faultName := []string{"denied", "unauthorized", "toomanyrequests", "transport", "unsupported"}[(idx/4)%5]
+	ferr := []error{ociregistry.ErrDenied, ociregistry.ErrUnauthorized, ociregistry.ErrTooManyRequests, errors.New("dial tcp 192.0.2.1:443: connect: connection refused"), ociregistry.ErrUnsupported}[(idx/4)%5]
+	readKinds := map[string]bool{"GetBlob": true, "GetBlobRange": true, "GetManifest": true, "ResolveBlob": true, "ResolveManifest": true}
+	recs := []*rec.Recorder{rec.New(m0), rec.New(m1)}
+	recs[faulty].Pre = func(c *rec.Call) error {
+		if readKinds[c.Method] {
+			return ferr
+		}
+		return nil
+	}
+	healthy := model.NewEnv([]ociregistry.Interface{m0, m1}[1-faulty])
+	envs := []*model.Env{
+		model.NewEnv(ociunify.New(recs[0].Interface(), recs[1].Interface(), &ociunify.Options{ReadPolicy: ociunify.ReadSequential})),
+		model.NewEnv(ociunify.New(recs[0].Interface(), recs[1].Interface(), &ociunify.Options{ReadPolicy: ociunify.ReadConcurrent})),
+	}
+	ops := u.SnapshotOps(model.New(false))
+	for _, r := range u.Repos {
+		for _, b := range u.Blobs {
+			ops = append(ops, &model.Op{Kind: "GetBlobRange", Repo: r, Digest: model.Digest(b), O0: 1, O1: int64(len(b))})
+		}
+	}
+	run.Eval(1)
+	for _, op := range ops {
+		if !readKinds[op.Kind] {
+			continue
+		}
+		h := healthy.Exec(op)
+		for pi, env := range envs {
+			pol := []string{"sequential", "concurrent"}[pi]
+			var out *model.Outcome
+			if !run.Case("faulty-member/total/"+pol, map[string]any{"op": op.String()}, func() { out = env.Exec(op) }) {
+				return
+			}
+			run.Count("faulty_member_reads", 1)
+			run.Distinct(fmt.Sprintf("faulty-member/%s/faulty=%d/%s/healthy-has=%v/%s", op.Kind, faulty, faultName, h.OK, out.Class()))
+			w := map[string]any{"policy": pol, "op": op, "faulty_member": faulty, "fault": ferr.Error(), "healthy_member": h.String(), "unified": out.String()}
+			switch {
+			case h.OK && !out.OK:
+				run.Count("faulty_member_reads_healthy_has_it", 1)
+				run.Violation(fmt.Sprintf("faulty-member/should-succeed/%s/%s", op.Kind, pol), fmt.Sprintf("%s through the unifier (%s) failed (%s) although member %d has it; member %d answers reads with %q", op, pol, out.Err, 1-faulty, faulty, ferr), w)
+			case h.OK:
+				run.Count("faulty_member_reads_healthy_has_it", 1)
+				if out.Digest != h.Digest || out.HasData && (out.ReadErr != "" || !bytes.Equal(out.Data, h.Data)) {
+					run.Violation(fmt.Sprintf("faulty-member/content/%s/%s", op.Kind, pol), fmt.Sprintf("%s through the unifier (%s): %s differs from the healthy member's %s", op, pol, out, h), w)
+				}
+			case out.OK:
+				run.Violation(fmt.Sprintf("faulty-member/should-fail/%s/%s", op.Kind, pol), fmt.Sprintf("%s through the unifier (%s) succeeded (%s) although one member fails and the other does not have it", op, pol, out), w)
+			}
+		}
+	}
+}
+
 // ---------- B. replicated writes
 
 var writeKinds = map[string]bool{"PushBlob": true, "PushBlobChunked": true, "PushBlobChunkedResume": true, "MountBlob": true, "PushManifest": true, "DeleteBlob": true, "DeleteManifest": true, "DeleteTag": true}
@@ -408,7 +477,7 @@ func gramOK(op *model.Op) bool {
 
 func main() {
 	run := evid.Start("C15", "exploration")
-	run.SetRule("A: pairs of member states (equal / disjoint repositories / overlapping with conflicting tags / one empty) built by direct histories; every read, resolve, range read and listing over the universe goes through the unifier under both read policies and is compared with the union of the members' direct answers. B: write histories (all write methods, composite and fine-grained chunked uploads, deletes) through the unifier over two recording members that start equal, a third of them with an injected failure in one member. " +
+	run.SetRule("A: pairs of member states (equal / disjoint repositories / overlapping with conflicting tags / one empty) built by direct histories; every read, resolve, range read and listing over the universe goes through the unifier under both read policies and is compared with the union of the members' direct answers. A2: the same digest-addressed reads with one member (either) answering reads with denied / unauthorized / too-many-requests / unsupported / a transport error while the other is healthy: readable exactly when the healthy member has it, under both policies. B: write histories (all write methods, composite and fine-grained chunked uploads, deletes) through the unifier over two recording members that start equal, a third of them with an injected failure in one member. " +
 		"distinct_nontrivial = distinct (method, state shape, how many members have it, outcome class) for A and (method, outcome class, injected?) for B; trivial = reads of things neither member has (counted but the least interesting).")
 	run.Assume("digest-addressed content found in both members is the same content (true by content addressing); manifest media types may differ between members and are not compared in A")
 	run.Assume("after an injected member failure the members may diverge; equality of members is asserted only for fault-free prefixes")
@@ -417,11 +486,16 @@ func main() {
 	for i := 0; i < nr; i++ {
 		readPhase(run, i)
 	}
+	nf := run.N(40, 1000)
+	for i := 0; i < nf; i++ {
+		faultyMemberReads(run, i)
+	}
 	nw := run.N(400, 8000)
 	for i := 0; i < nw; i++ {
 		writeHistory(run, i)
 	}
 	run.FloorCounter("tag_conflicts", 10)
+	run.FloorCounter("faulty_member_reads_healthy_has_it", 100)
 	run.FloorCounter("tag_agreements_between_different_members", 10)
 	run.FloorCounter("union_listings", 100)
 	run.FloorCounter("writes_checked", 1000)
